@@ -60,7 +60,7 @@ def methods : List (String × String) := [
   ("FileSystem.apply_timestep", "def apply_timestep(self, timestep):\n    super().apply_timestep(timestep=timestep)\n    for folder_id in self.folders:\n        self.folders[folder_id].apply_timestep(timestep=timestep)"),
   ("FileSystem.describe_state", "def describe_state(self):\n    state = super().describe_state()\n    state['folders'] = {folder.name: folder.describe_state() for folder in self.folders.values()}\n    state['deleted_folders'] = {folder.name: folder.describe_state() for folder in self.deleted_folders.values()}\n    state['num_file_creations'] = self.num_file_creations\n    state['num_file_deletions'] = self.num_file_deletions\n    return state"),
   ("Folder.get_file", "def get_file(self, file_name, include_deleted=False):\n    for file in self.files.values():\n        if file.name == file_name:\n            return file\n    if include_deleted:\n        for file in self.deleted_files.values():\n            if file.name == file_name:\n                return file\n    return None"),
-  ("Folder.add_file", "def add_file(self, file, force=False):\n    if file is None or not isinstance(file, File):\n        raise Exception(f'Invalid file: {file}')\n    if self.get_file(file.name) is not None and (not force):\n        raise Exception(f'File with name {file.name} already exists in folder')\n    if file.uuid in self.files and (not force):\n        raise Exception(f'File with uuid {file.uuid} already exists in folder')\n    self.files[file.uuid] = file\n    self._file_request_manager.add_request(file.name, RequestType(func=file._request_manager))\n    file.folder = self"),
+  ("Folder.add_file", "def add_file(self, file, force=False):\n    if file is None or not isinstance(file, File):\n        raise Exception(f'Invalid file: {file}')\n    if self.get_file(file.name) is not None and (not force):\n        raise Exception(f'File with name {file.name} already exists in folder')\n    if file.uuid in self.files and (not force):\n        raise Exception(f'File with uuid {file.uuid} already exists in folder')\n    existing = self.get_file(file.name)\n    if existing is not None and existing.uuid != file.uuid:\n        self.remove_file(existing)\n    self.files[file.uuid] = file\n    self._file_request_manager.add_request(file.name, RequestType(func=file._request_manager))\n    file.folder = self"),
   ("Folder.remove_file", "def remove_file(self, file):\n    if file is None or not isinstance(file, File):\n        raise Exception(f'Invalid file: {file}')\n    if self.files.get(file.uuid):\n        self.files.pop(file.uuid)\n        self.deleted_files[file.uuid] = file\n        file.delete()\n    else:\n        pass"),
   ("Folder.remove_file_by_name", "def remove_file_by_name(self, file_name):\n    for f in self.files.values():\n        if f.name == file_name:\n            self.remove_file(f)\n            return True\n    return False"),
   ("Folder.remove_all_files", "def remove_all_files(self):\n    for file_id in self.files:\n        file = self.files.get(file_id)\n        file.delete()\n        self.deleted_files[file_id] = file\n    self.files = {}"),
